@@ -56,6 +56,9 @@ def one(e, base):
     elif e.get('generator') == 'split-conditions':
         from split_conditions import main as splitc
         splitc(d)
+    elif e.get('generator') == 'else-after-exit':
+        from else_after_exit import main as elseexit
+        elseexit(d)
     elif e.get('generator') == 'insert-noops':
         from insert_noops import main as noops
         noops(d)
